@@ -590,9 +590,15 @@ func (w *world) judge(stream string, s *sideRun, hung bool) (obs string) {
 	}
 	obs = w.observe(s)
 	model, ops := w.askSess(s.cfg, s.fed, s.end)
-	r.Check("C14", stream, ops, model, obs)
+	// raw-peer and boundary streams are also the C11 evidence for the frame reader: property ""
+	// = every property that lists this area
+	prop := "C14"
+	if strings.HasPrefix(stream, "hs.boundary") || strings.HasPrefix(stream, "hs.raw") {
+		prop = ""
+	}
+	r.Check(prop, stream, ops, model, obs)
 	if s.pan != nil {
-		r.Violate("C14", "", stream+".panic", fmt.Sprintf("handshake panicked: %v", s.pan), ops)
+		r.Violate(prop, "", stream+".panic", fmt.Sprintf("handshake panicked: %v", s.pan), ops)
 		return
 	}
 	l := w.sideLegit(s.cfg, s.fed)
@@ -616,7 +622,7 @@ func (w *world) judge(stream string, s *sideRun, hung bool) (obs string) {
 		}
 	}
 	if s.c.maxReq > sizeLimit+hdr {
-		r.Violate("C14", "", stream+".alloc", fmt.Sprintf("a single read asked for %d bytes (> frame limit)", s.c.maxReq), ops)
+		r.Violate(prop, "", stream+".alloc", fmt.Sprintf("a single read asked for %d bytes (> frame limit)", s.c.maxReq), ops)
 	}
 	r.Count("verdict." + strings.Fields(strings.TrimPrefix(obs, "err "))[0])
 	return obs
